@@ -158,8 +158,56 @@ def optF : Option Float → Json
 instance : Max Float := ⟨fun a b => if a.isNaN || b.isNaN then (0.0 / 0.0) else if a < b then b else a⟩
 instance : Min Float := ⟨fun a b => if a.isNaN || b.isNaN then (0.0 / 0.0) else if b < a then b else a⟩
 
+/-- request values of `scico.random` calls: {"none": true} | {"shape": tree} | {"o": term} -/
+def rvalOfJson? (j : Json) : Option (RVal Sym Sym Sym) :=
+  match field? j "none" with
+  | some _ => some (.oth .none)
+  | none => match field? j "shape" with
+    | some s => (stOfJson? s).map CVal.tree
+    | none => match field? j "o" with
+      | some v => (Sym.ofJson? v).map (fun t => CVal.oth (.oth t))
+      | none => none
+
+def rvalTerm : RVal Sym Sym Sym → Sym
+  | .tree t => .shape t
+  | .oth .none => .atom "None"
+  | .oth (.key k) => k
+  | .oth (.seed s) => s
+  | .oth (.oth b) => b
+
+/-- `jax.random.PRNGKey` / `jax.random.split(·, 2)[0]`, table-backed -/
+def primsT (tab : Table) : RngPrims Sym Sym Sym :=
+  { seed0 := .atom "int0"
+    prngKey := fun v => evalT tab (.call "jr:PRNGKey" [rvalTerm v] [])
+    split0 := fun v => evalT tab (.call "py:split0" [rvalTerm v] []) }
+
 def handler : Handler := fun op j =>
   match op with
+  | "setitem" => do
+    let self ← (← fList? j "blocks").mapM Sym.ofJson?
+    let k ← fInt? j "k"
+    let v ← Sym.ofJson? (← field? j "v")
+    let tab ← tabOf? j
+    match setItem (envT tab) self k v with
+    | .error e => some (errReply e)
+    | .ok l => some (reply tab (valJson (.blk l)) l)
+  | "random" => do
+    let fn ← fStr? j "fn"
+    let params ← (← fList? j "params").mapM getStr?
+    let args ← (← fList? j "args").mapM rvalOfJson?
+    let kwKey ← rvalOfJson? (← field? j "kwkey")
+    let kwSeed ← rvalOfJson? (← field? j "kwseed")
+    let kwargs ← (← fList? j "kwargs").mapM (fun e => do
+      match ← getList? e with
+      | [k, v] => some (← getStr? k, ← rvalOfJson? v)
+      | _ => none)
+    let tab ← tabOf? j
+    let g := fun (b : List (String × RVal Sym Sym Sym)) =>
+      evalT tab (.call fn [] (b.map (fun (k, v) => (k, rvalTerm v))))
+    match randomWrapped (envT tab) (primsT tab) params g args kwKey kwSeed kwargs with
+    | .error e => some (errReply e)
+    | .ok (v, k') =>
+      some (reply tab (jObj [("val", valJson v), ("key", k'.toJson)]) (termsOfVal v ++ [k']))
   | "map" => do
     let fn ← fStr? j "fn"
     let args ← (← fList? j "args").mapM valOfJson?
